@@ -53,7 +53,17 @@ func init() {
 			c.Server.Validator = []AuthEntry{{DB: db, User: user, PW: pw, Out: out}}
 			c.Server.DefaultAuth = r.Pick("reject", "reject", "fail")
 			var cred pgwire.FMsg
-			switch r.Intn(14) {
+			su := startupMsg(user, db)
+			switch r.Intn(16) {
+			case 14, 15:
+				// a body-less password message after a startup packet that carries
+				// bytes behind its terminator (which spell an acceptable password)
+				su.Tail = append([]byte(pw), 0)
+				cred = pgwire.FMsg{K: "typed", T: 'p'}
+				if r.Bool() {
+					cred.Data = []byte{}
+					su.Tail = append([]byte(r.Pick(pw, "x")), 0)
+				}
 			case 0, 1, 2:
 				cred = pgwire.FMsg{K: "p", S1: pw}
 			case 3, 4:
@@ -78,7 +88,7 @@ func init() {
 				cred = pgwire.FMsg{K: "p", S1: pw, Cut: intp(r.Range(1, 5))}
 			}
 			tail := genTail(r, c)
-			steps := []Step{{Msgs: []pgwire.FMsg{startupMsg(user, db)}}}
+			steps := []Step{{Msgs: []pgwire.FMsg{su}}}
 			if r.Bool() {
 				steps = append(steps, Step{Msgs: append([]pgwire.FMsg{cred}, tail...)})
 			} else {
@@ -129,6 +139,15 @@ func init() {
 				}
 				if okSeen && !accepted {
 					add("auth-ok-without-acceptance", "AuthenticationOk was sent although the strategy did not accept the credentials")
+				}
+				// R5: anything other than a well-formed password message is never accepted
+				if msgs := cs.cc.FlatMsgs(); okSeen && len(msgs) > 1 {
+					cm := &msgs[1]
+					wellFormed := cm.K == "p" && cm.DeclLen == nil && cm.Cut == nil && !cm.NoNul && cm.Pad == 0
+					if !wellFormed {
+						add("malformed-credentials-accepted", fmt.Sprintf("AuthenticationOk was sent although the client did not send a well-formed password message (it sent kind %q, %d body bytes)", clientKind(cm), cm.DeclaredBody()))
+						accepted = false
+					}
 				}
 				if okSeen && accepted {
 					// ordering: the AuthenticationOk write happened after the validator event
